@@ -231,6 +231,7 @@ def run(repo: Repo, tier: str, res: CheckResult, seed: int = 0) -> None:
     namespace_exclusion(repo, res)
     mapped_keys_are_plain(repo, res)
     registrations_are_mangled(repo, res)
+    keyword_arguments_survive_the_parser(repo, res)
     res.assumptions = list(ASSUMPTIONS)
 
     from .. import genprog
@@ -542,6 +543,15 @@ def sanitizer(repo: Repo, res: CheckResult) -> None:
                     continue
         if is_ret:
             bad = holder
+    # the parser NFKC-normalises identifiers: the sanitised name must be the name that will really be defined, otherwise the
+    # namespace compares another string than the one that is bound (a converter named with a fullwidth letter shadows a helper)
+    res.evaluated("sanitizer:nfkc", True)
+    ntxt = norm(fn).replace("'", '"')
+    if 'normalize("NFKC"' not in ntxt:
+        res.add(Finding("C19", "SANITIZER.not-nfkc", m.rel, "BuiltinNameSanitizer.sanitize", "no NFKC normalisation",
+                        "the sanitizer hands out names that the parser will rewrite (NFKC): the collision tests of the namespace see "
+                        "`c\uff4fercer`, the program defines `coercer` -- a user-chosen converter name captures the helper of that name",
+                        fn.lineno))
     if bad is not None or not rets:
         res.add(Finding("C19", "SANITIZER.alphabet", m.rel, "BuiltinNameSanitizer.sanitize",
                         norm(bad.value) if bad is not None else "no return",
@@ -780,3 +790,39 @@ def registrations_are_mangled(repo: Repo, res: CheckResult) -> None:
                                 "linked function called `constant_0`) the call raises KeyError('... is duplicated') and no converter is "
                                 "generated; names enter the namespace through the try-and-suffix loop", c.lineno))
     res.count("SCOPE.unconditional-registrations", n, 0)
+
+
+def keyword_arguments_survive_the_parser(repo: Repo, res: CheckResult) -> None:
+    """A constructor parameter name is data too (a pydantic alias is any string that is an identifier). Written as `name=value`
+    it goes through the parser, which refuses keywords AND rewrites identifiers to NFKC: `\ufb01eld=...` arrives as `field=...`.
+    The guard that chooses between `name=value` and `**{'name': value}` therefore has to establish both properties."""
+    sites = (("morphing/model/loader_gen", "BuiltinModelLoaderGen", "_gen_constructor_call"),
+             ("conversion/broaching/code_generator", "BuiltinBroachingCodeGenerator", "_gen_function_call"))
+    for short, cname, mname in sites:
+        m = repo.mod(short)
+        ci = m.classes.get(cname)
+        fn = ci.methods.get(mname) if ci is not None else None
+        if fn is None:
+            raise AnalysisError(f"anchor vanished: {cname}.{mname}")
+        res.evaluated(f"kwarg-name:{cname}.{mname}", True)
+        guards = []
+        for cond in [x for x in ast.walk(fn) if isinstance(x, ast.If)]:
+            core = cond.test.operand if isinstance(cond.test, ast.UnaryOp) and isinstance(cond.test.op, ast.Not) else cond.test
+            if isinstance(core, ast.Call) and isinstance(core.func, ast.Name) and len(core.args) == 1 and (
+                    core.func.id == "iskeyword" or "keyword" in core.func.id.lower()):
+                guards.append((cond, core))
+        if not guards:
+            raise AnalysisError(f"{cname}.{mname}: the guard of keyword arguments was not found")
+        for cond, core in guards:
+            ok = False
+            if core.func.id != "iskeyword":
+                r = repo.resolve_global(m, core.func.id)
+                f2 = getattr(r, "node", None) if getattr(r, "kind", None) == "func" else None
+                if isinstance(f2, ast.FunctionDef):
+                    txt = norm(f2).replace("'", '"')
+                    ok = "iskeyword(" in txt and 'normalize("NFKC"' in txt
+            if not ok:
+                res.add(Finding("C19", "KWARG.name-rewritten-by-parser", m.rel, f"{cname}.{mname}", norm(cond.test)[:80],
+                                f"`{norm(cond.test)[:60]}` decides whether `{norm(core.args[0])}` is written as `name=value`; it does not "
+                                "establish that the name is in NFKC normal form: the parser rewrites `\ufb01eld=` to `field=`, the "
+                                "constructor receives another keyword (a pydantic alias) and the value is lost or refused", cond.lineno))
